@@ -393,11 +393,16 @@ async def _interp(run: Run, sdef: dict, ctx: Context, ev: Any, rn: int, inv: Any
                 snap_tys = [ET.TY_ID.get(type(e), -1) for e in _SWC.get().state.collected_events.get(bufname or "default", [])]
             except Exception:
                 snap, snap_tys = None, None
+            cev = ev
+            if len(act) > 5 and act[5]:
+                # opt-in (no generated spec has it; corpus witness c03_unhandled_idle_batch): the step hands collect_events an event
+                # OTHER than the one it was invoked with (act[5] = [type id, k]); a collect re-run then runs with that event
+                cev = ET.mk(int(act[5][0]), run.fresh(), act[5][1])
             for _rep in range(max(int(act[3]) if len(act) > 3 else 1, 1) - 1):
                 # the same collect_events call made again by one invocation (e.g. in a loop): every call that
                 # still needs the event appends one more AddCollectedEvent for the same buffer to this result
-                ctx.collect_events(ev, [ET.TYPES[t] for t in act[1]], buffer_id=bufname)
-            got = ctx.collect_events(ev, [ET.TYPES[t] for t in act[1]], buffer_id=bufname)
+                ctx.collect_events(cev, [ET.TYPES[t] for t in act[1]], buffer_id=bufname)
+            got = ctx.collect_events(cev, [ET.TYPES[t] for t in act[1]], buffer_id=bufname)
             run.trace.steps.append(("collect_call", name, uid, rn, asyncio.get_event_loop().time(),
                                     {"expected": list(act[1]), "buf": bufname or "default", "snapshot": snap, "snapshot_tys": snap_tys,
                                      "ty": ET.TY_ID.get(type(ev), -1), "at_call": len(run.trace.calls),
